@@ -25,9 +25,9 @@ import (
 	"time"
 
 	"github.com/cenkalti/rain/v2/internal/allocator"
-	"github.com/cenkalti/rain/v2/internal/infodownloader"
 	"github.com/cenkalti/rain/v2/internal/handshaker/incominghandshaker"
 	"github.com/cenkalti/rain/v2/internal/handshaker/outgoinghandshaker"
+	"github.com/cenkalti/rain/v2/internal/infodownloader"
 	"github.com/cenkalti/rain/v2/internal/mse"
 	"github.com/cenkalti/rain/v2/internal/peer"
 	"github.com/cenkalti/rain/v2/internal/peerprotocol"
@@ -40,6 +40,8 @@ import (
 	"github.com/cenkalti/rain/v2/internal/verifier"
 	"github.com/cenkalti/rain/v2/internal/webseedsource"
 	"github.com/zeebo/bencode"
+	"sync/atomic"
+	"syscall"
 )
 
 // ---- in-memory storage ----
@@ -177,8 +179,8 @@ type VFrame struct {
 }
 
 type VPeer struct {
-	Conn   net.Conn // harness side
-	Pe     *peer.Peer
+	Conn    net.Conn // harness side
+	Pe      *peer.Peer
 	mu      sync.Mutex
 	frames  []VFrame
 	closed  bool
@@ -342,18 +344,18 @@ func (p *VPeer) Send(id byte, payload []byte) error {
 // ---- the loop ----
 
 type VLoop struct {
-	S     *Session
-	Tor   *Torrent
-	T     *torrent
-	Sto   *VStorage
-	Peers []*VPeer
-	dir   string
-	ln    net.Listener
-	Crash string
-	Truth []byte // ground-truth content (concatenated files) for judging received blocks
-	PL    int64
-	TruthInfo []byte // the info dictionary behind a magnet link
-	BarrierTimeouts int // barriers that gave up waiting (reported in the case note)
+	S               *Session
+	Tor             *Torrent
+	T               *torrent
+	Sto             *VStorage
+	Peers           []*VPeer
+	dir             string
+	ln              net.Listener
+	Crash           string
+	Truth           []byte // ground-truth content (concatenated files) for judging received blocks
+	PL              int64
+	TruthInfo       []byte // the info dictionary behind a magnet link
+	BarrierTimeouts int    // barriers that gave up waiting (reported in the case note)
 }
 
 type VLoopOpts struct {
@@ -362,6 +364,44 @@ type VLoopOpts struct {
 	Sequential  bool
 	Tune        func(*Config)
 	Preload     map[string][]byte
+}
+
+// freeTCPPort hands out a port for a session's single torrent.  Concurrently running harness processes
+// (several checks at once) must not fight over ports -- a torrent that cannot listen just goes on without an
+// acceptor -- and the kernel's ephemeral range is used by every scripted listener and dialer.  Each process
+// therefore claims a slot of 1000 ports below that range with a file lock it holds until it exits, and
+// walks through its slot.
+var (
+	portSlotOnce sync.Once
+	portSlotBase int
+	portSlotFile *os.File
+	portNext     uint32
+)
+
+func freeTCPPort() uint16 {
+	portSlotOnce.Do(func() {
+		for k := 0; k < 22; k++ {
+			f, err := os.OpenFile(fmt.Sprintf("/verif/.work/portslot-%d", k), os.O_CREATE|os.O_RDWR, 0o644)
+			if err != nil {
+				continue
+			}
+			if syscall.Flock(int(f.Fd()), syscall.LOCK_EX|syscall.LOCK_NB) == nil {
+				portSlotBase, portSlotFile = 10000+1000*k, f
+				return
+			}
+			f.Close()
+		}
+		portSlotBase = 10000 + 1000*(os.Getpid()%22)
+	})
+	for try := 0; try < 1000; try++ {
+		p := portSlotBase + int(atomic.AddUint32(&portNext, 1)%1000)
+		l, err := net.Listen("tcp4", fmt.Sprintf("127.0.0.1:%d", p))
+		if err == nil {
+			l.Close()
+			return uint16(p)
+		}
+	}
+	return uint16(portSlotBase)
 }
 
 // BuildTorrentFile creates a metainfo file for the given info dictionary bytes.
@@ -391,8 +431,10 @@ func NewVLoop(o VLoopOpts) (*VLoop, error) {
 	cfg.PEXEnabled = true
 	cfg.HealthCheckInterval = time.Hour
 	cfg.ResumeWriteInterval = time.Hour
-	cfg.PortBegin = 21000
-	cfg.PortEnd = 29000
+	// one torrent per session: one port, free a moment ago (sessions of concurrently running checks must
+	// not fight over a common range: a torrent that cannot listen just goes on without an acceptor)
+	cfg.PortBegin = freeTCPPort()
+	cfg.PortEnd = cfg.PortBegin + 1
 	cfg.Host = "127.0.0.1"
 	cfg.TrackerStopTimeout = time.Second
 	sto := NewVStorage()
@@ -455,8 +497,10 @@ func OpenVLoop(db []byte, sto *VStorage, tune func(*Config)) (*VLoop, error) {
 	cfg.ResumeOnStartup = false
 	cfg.HealthCheckInterval = time.Hour
 	cfg.ResumeWriteInterval = time.Hour
-	cfg.PortBegin = 21000
-	cfg.PortEnd = 29000
+	// one torrent per session: one port, free a moment ago (sessions of concurrently running checks must
+	// not fight over a common range: a torrent that cannot listen just goes on without an acceptor)
+	cfg.PortBegin = freeTCPPort()
+	cfg.PortEnd = cfg.PortBegin + 1
 	cfg.Host = "127.0.0.1"
 	cfg.TrackerStopTimeout = time.Second
 	cfg.CustomStorage = vProvider{sto}
@@ -913,9 +957,9 @@ func (v *VLoop) AddPeer(fast, ext bool, source peersource.Source) (*VPeer, error
 
 type VPeerState struct {
 	Closed, ClientChoking, ClientInterested, PeerChoking, PeerInterested, Downloading, Snubbed, FastEnabled bool
-	SentAllowedFast                                                                                          []int
-	DownloadPiece                                                                                            int // -1 none
-	DownloadAF                                                                                               bool
+	SentAllowedFast                                                                                         []int
+	DownloadPiece                                                                                           int // -1 none
+	DownloadAF                                                                                              bool
 }
 
 type VSnapshot struct {
